@@ -226,10 +226,17 @@ theorem target_keywords_reserved :
     ∀ n ∈ ([[99, 108, 97, 115, 115], [102, 111, 114], [119, 104, 105, 108, 101], [114, 101, 116, 117, 114, 110], [105, 102], [101, 108, 115, 101], [105, 110, 116], [102, 108, 111, 97, 116], [98, 111, 111, 108], [115, 116, 114, 105, 110, 103], [110, 97, 109, 101, 115, 112, 97, 99, 101], [105, 110, 116, 101, 114, 102, 97, 99, 101], [105, 109, 112, 111, 114, 116], [112, 97, 99, 107, 97, 103, 101], [102, 117, 110, 99], [118, 97, 114], [115, 116, 114, 117, 99, 116], [115, 119, 105, 116, 99, 104], [99, 97, 115, 101], [100, 101, 102, 97, 117, 108, 116], [110, 101, 119], [100, 101, 108, 101, 116, 101], [112, 117, 98, 108, 105, 99], [112, 114, 105, 118, 97, 116, 101], [115, 116, 97, 116, 105, 99], [118, 111, 105, 100], [100, 101, 102], [108, 97, 109, 98, 100, 97], [121, 105, 101, 108, 100], [97, 115, 121, 110, 99], [97, 119, 97, 105, 116], [102, 117, 110, 99, 116, 105, 111, 110], [116, 121, 112, 101, 111, 102], [105, 110, 115, 116, 97, 110, 99, 101, 111, 102], [111, 98, 106, 101, 99, 116], [98, 121, 116, 101, 115], [98, 121, 116, 101, 97, 114, 114, 97, 121], [115, 116, 114]] : List Text),
       n ∈ Gen.Rules.reservedTypeNames ∧ n ∈ Gen.Rules.reservedMemberNames := by decide +kernel
 
-/-- the reserved prefixes: `I_` and `Must_` for types, `mutable` for members, `over…or_empty`/`…orempty` for methods -/
+/-- the reserved prefixes: `I_` and `Must_` for types, `mutable` for members, `over…or_empty`/`…orempty`
+for methods (as sets: the order of the checks in the source does not matter) -/
 theorem reserved_prefixes :
-    Gen.Rules.typePrefixes = [[73, 95], [77, 117, 115, 116, 95]] ∧ Gen.Rules.memberPrefix = [109, 117, 116, 97, 98, 108, 101] ∧
-    Gen.Rules.overPrefix = [111, 118, 101, 114] ∧ Gen.Rules.overSuffixes = [[111, 114, 95, 101, 109, 112, 116, 121], [111, 114, 101, 109, 112, 116, 121]] := by decide
+    (∀ p, p ∈ Gen.Rules.typePrefixes ↔ p ∈ ([[73, 95], [77, 117, 115, 116, 95]] : List Text)) ∧
+    Gen.Rules.memberPrefix = [109, 117, 116, 97, 98, 108, 101] ∧ Gen.Rules.overPrefix = [111, 118, 101, 114] ∧
+    (∀ s, s ∈ Gen.Rules.overSuffixes ↔ s ∈ ([[111, 114, 95, 101, 109, 112, 116, 121], [111, 114, 101, 109, 112, 116, 121]] : List Text)) := by
+  refine ⟨fun p => ⟨fun h => ?_, fun h => ?_⟩, by decide, by decide, fun s => ⟨fun h => ?_, fun h => ?_⟩⟩
+  · revert p; decide
+  · revert p; decide
+  · revert s; decide
+  · revert s; decide
 
 /-- every entry of the tables is lower-case (the implementation asserts it; the checker compares lower-cased names) -/
 theorem tables_lower_case :
